@@ -100,6 +100,7 @@ type simCluster struct {
 	dialHold    chan struct{}
 	zkHold      chan struct{}            // LocateResource waits for it to be closed
 	slowNew     time.Duration            // the connection factory takes this long
+	scanWalk    bool                     // user-table scans walk region by region (one row per region), forward or reversed
 	scanRows    bool                     // user-table scans return one row per request and keep the region scanner open
 	probeHold   map[string]chan struct{} // region probes to this address are answered (ok) only when released
 }
@@ -343,6 +344,32 @@ func (s *simConn) serve(call hrpc.Call) {
 			return
 		}
 		sv.kind = "scan"
+		if c.scanWalk {
+			// every region answers with one row of its own and "nothing more in this region"; the
+			// scan is over at the table's edge in the direction of the scan
+			var reg *simRegion
+			if cr := call.Region(); cr != nil {
+				for _, x := range c.regions {
+					if bytes.Equal(x.name, cr.Name()) && x.addr == s.addr {
+						reg = x
+					}
+				}
+			}
+			if reg == nil {
+				finish("nsre")
+				deliver(nil, excErr("nsre"))
+				return
+			}
+			finish("ok")
+			more := (r.Reversed() && len(reg.start) != 0) || (!r.Reversed() && len(reg.stop) != 0)
+			no := false
+			ts := uint64(1)
+			rowKey := append(append([]byte{}, reg.start...), 'r')
+			row := &pb.Result{Cell: []*pb.Cell{{Row: rowKey, Family: []byte("f"), Qualifier: []byte("q"),
+				Value: []byte("v"), Timestamp: &ts, CellType: pb.CellType_PUT.Enum()}}}
+			deliver(&pb.ScanResponse{MoreResults: &more, MoreResultsInRegion: &no, Results: []*pb.Result{row}}, nil)
+			return
+		}
 		if c.scanRows {
 			// a region scanner that always has one more row: scanner id 42 stays open at the server
 			yes := true
